@@ -424,7 +424,8 @@ func c06BreakingPart(env *c06Env, clean *gen.Schema, idx int) {
 			c.Violation("breaking-failed", key, fmt.Sprintf("%s: Breaking failed: %v (the model selects %d rules)", describe, bErr, len(sel)), detail())
 			continue
 		}
-		want, err := c06Expected(t, "breaking", cfg, sel, baseline(cfg.Module), nil, importOnly[cfg.Module], excludeImports, &c06Against{Path: againstPath, ImportOnly: importOnlyOld[cfg.Module]})
+		agCtx := &c06Against{Path: againstPath, ImportOnly: importOnlyOld[cfg.Module], Optional: map[string]bool{}}
+		want, err := c06Expected(t, "breaking", cfg, sel, baseline(cfg.Module), nil, importOnly[cfg.Module], excludeImports, agCtx)
 		if err == nil && len(movedSpans) > 0 {
 			// how often the against-location alone decides
 			for _, r := range sel {
@@ -452,6 +453,13 @@ func c06BreakingPart(env *c06Env, clean *gen.Schema, idx int) {
 					c.Count("breaking_import_annotations_default_mode", 1)
 				}
 			}
+		}
+		for k := range agCtx.Optional {
+			// either outcome is accepted for these: align the expectation with what was observed
+			if _, reported := got[k]; !reported {
+				delete(want, k)
+			}
+			c.Count("breaking_optional_against_location_annotations", 1)
 		}
 		missing, extra := diffAnnSets(want, got)
 		if len(missing) > 0 {
